@@ -584,6 +584,37 @@ func (r *runner) exec(line string) (cont bool) {
 		}
 		var err error
 		final := out1
+		if strings.HasPrefix(f[1], "alias:") {
+			// the --output names the source itself (same path, a symbolic link or a hard link to it): the command must not
+			// touch the source; alias:<how>:<command>
+			parts := strings.Split(f[1], ":")
+			saved, _ := os.ReadFile(r.path)
+			outp := r.path
+			switch parts[1] {
+			case "symlink":
+				_ = os.Symlink(r.path, out1)
+				outp = out1
+			case "hardlink":
+				_ = os.Link(r.path, out1)
+				outp = out1
+			}
+			args := map[string][]string{"abandon": {"surgery", "freelist", "abandon"}, "rebuild": {"surgery", "freelist", "rebuild"},
+				"revert": {"surgery", "revert-meta-page"}}[parts[2]]
+			err = runCLI(append(append([]string{}, args...), r.path, "--output", outp)...)
+			same := fileSHA(r.path) == shaBefore
+			if !same {
+				_ = os.WriteFile(r.path, saved, 0600) // put the source back so that the history can go on
+			}
+			if outp != r.path {
+				os.Remove(outp)
+			}
+			res := "refused"
+			if err == nil {
+				res = "accepted"
+			}
+			r.res("alias %s src=%v", res, same)
+			return true
+		}
 		switch f[1] {
 		case "abandon":
 			err = runCLI("surgery", "freelist", "abandon", r.path, "--output", out1)
@@ -1276,6 +1307,9 @@ func genHistory(r *rng, cfg genCfg, o openOpts) []string {
 			committed = work
 		}
 		if cfg.surgery && strings.HasSuffix(L[len(L)-1], "commit") && r.chance(1, 2) {
+			if r.chance(1, 6) {
+				L = append(L, fmt.Sprintf("surg alias:%s:%s", []string{"same", "symlink", "hardlink"}[r.intn(3)], []string{"abandon", "rebuild", "revert"}[r.intn(3)]))
+			}
 			L = append(L, "surg "+[]string{"abandon", "rebuild", "abandon+rebuild", "revert", "revert"}[r.intn(5)])
 		}
 		if cfg.backups && len(readers) > 0 && r.chance(1, 2) {
